@@ -398,6 +398,11 @@ def targeted_cases():
     pol = {'k': 'policy', 'falsy': False, 'ctor': False}
     fpol = {'k': 'policy', 'falsy': True, 'ctor': False}
     all_res = [[p, [0, i]] for p in ('view', 'edit', 'ZERO', 'EMPTY') for i in range(3)]
+    # constructor arguments that are falsy objects; append_slash written after the policy is in force
+    out.append(_case([{'k': 'policy', 'falsy': True, 'ctor': True}, _v(1, perm='view')], [], [_rq()]))
+    out.append(_case([dict(pol), {'k': 'defperm', 'perm': 'view', 'ctor': False}, _v(3, k='notfound', append_slash=True)],
+                     [], [_rq(vname='zz')], cut=1))
+    out.append(_case([dict(pol), {'k': 'defperm', 'perm': 'ZERO', 'ctor': True}, _v(1)], [], [_rq()]))
     for flavour in range(5):
         for P in (pol, fpol):
             # the policy written after the views of its commit; explicit, default, falsy and marker permissions
